@@ -19,4 +19,35 @@ theorem gen_pc_one_sample_eq {β : Type} [DecidableEq β] (xs : List β) : Gener
   try rw [e1]
   try first | rfl | ring
 
+/-- summing the products of multiplicities over the shared values only (what `np.intersect1d(..., return_indices=True)` selects)
+is summing them over all values of the first collection: a value absent from the second contributes 0 -/
+theorem shared_sum {β : Type} [DecidableEq β] (A B l : List β) :
+    ((l.filter fun y => decide (y ∈ dedup B)).map fun x => ((A.count x : ℕ) : ℚ) * ((B.count x : ℕ) : ℚ)).sum
+      = (((l.map fun v => A.count v * B.count v).sum : ℕ) : ℚ) := by
+  induction l with
+  | nil => simp
+  | cons x l ih =>
+    by_cases h : x ∈ B
+    · have h' : x ∈ dedup B := (mem_dedup x B).2 h
+      simp only [List.filter_cons, h', decide_true, if_true, List.map_cons, List.sum_cons, ih]
+      push_cast
+      ring
+    · have h' : ¬ x ∈ dedup B := fun hx => h ((mem_dedup x B).1 hx)
+      have h0 : B.count x = 0 := List.count_eq_zero_of_not_mem h
+      rw [List.filter_cons_of_neg (by simp [h]), ih]
+      simp [h0]
+
+theorem gen_pc_two_samples_eq {β : Type} [DecidableEq β] (as bs : List β) : Generated.pc_two_samples as bs = pc2 as bs := by
+  simp only [Generated.pc_two_samples, pc2, crossCount]
+  have e' : ∀ f : β → ℚ, (∀ x, f x = ((as.count x : ℕ) : ℚ) * ((bs.count x : ℕ) : ℚ)) →
+      (((dedup as).filter fun y => decide (y ∈ dedup bs)).map f).sum
+        = (((dedup as).map fun v => as.count v * bs.count v).sum : ℕ) := by
+    intro f hf
+    rw [show f = fun x => ((as.count x : ℕ) : ℚ) * ((bs.count x : ℕ) : ℚ) from funext hf]
+    simpa using shared_sum as bs (dedup as)
+  -- the element-wise product may be spelled in either order, with either collection first
+  rw [e' _ (fun x => by first | rfl | ring)]
+  try push_cast
+  try first | rfl | ring
+
 end Prs
